@@ -65,6 +65,7 @@ func runC17(t *testing.T, seed uint64, m *Mask) *Report {
 			}
 		}
 		op.Codec = []byte{'j', 'p'}[r.Intn(2)]
+		op.AcceptCodec = 0 // the reply must use a codec able to carry the envelope
 		op.Data = world.GenString(r, 24+r.Intn(60), "abcdefghijklmnopqrstuvwxyzABCDEFGHIJKLMNOPQRSTUVWXYZ0123456789")
 		op.MetaK, op.MetaV = "Mk", world.GenString(r, 6, "abcdef0123")
 		op.HYield = r.Intn(5)
